@@ -67,6 +67,9 @@ func itemShapesBase(c *Counter, mk func(n string, it ap.Item) Shaped) []Shaped {
 		mk("objval:Activity", ap.Activity{ID: c.ID("a"), Type: ap.AnnounceType, Object: c.ID("o")}),
 		mk("objval:OrderedCollection", ap.OrderedCollection{ID: c.ID("c"), Type: ap.OrderedCollectionType, TotalItems: 1, OrderedItems: ap.ItemCollection{c.ID("m")}}),
 		mk("objval:Link", ap.Link{Type: ap.MentionType, Href: c.ID("h")}),
+		// set, but holding nothing (what make(ItemCollection, 0) or a cleared list leaves in an item property): the property is absent
+		// under the normal form - and the value that holds it is still all there
+		mk("empty-list", ap.ItemCollection{}),
 		mk("list1:iri", ap.ItemCollection{c.ID("i")}),
 		mk("list1:obj", ap.ItemCollection{&ap.Object{ID: c.ID("o"), Type: ap.NoteType}}),
 		mk("list2", ap.ItemCollection{c.ID("i"), &ap.Object{ID: c.ID("o"), Type: ap.NoteType}}),
